@@ -236,7 +236,8 @@ const AcceptWebfinger = "application/jrd+json"
 // of the URL the request is expected to be for.
 func ConnEvent(c *ConnLog, addr string, accept string, path string, query string) map[string]any {
 	return map[string]any{"ev": "conn", "seq": c.Seq, "plain": c.Plain, "raw": Bytes(string(c.Raw)),
-		"host": Bytes(addr), "accept": Bytes(accept), "path": Bytes(path), "query": Bytes(query), "hostname": c.Host}
+		"host": Bytes(addr), "accept": Bytes(accept), "path": Bytes(path), "query": Bytes(query), "hostname": c.Host,
+		"resumed": c.Resumed, "clientcert": c.ClientCert}
 }
 
 // PlainConnEvents: for drivers whose URLs are simple (no escapes): the expected path and query
